@@ -51,6 +51,10 @@ Definition upd_alarm (t : dtab) (k : id) (f : alarm -> alarm) : dtab :=
   {| svs := svs t; ecs := ecs t; alarms := map (fun p => if id_eqb (fst p) k then (fst p, f (snd p)) else p) (alarms t) |}.
 Definition al_row (k : id) (a : alarm) : id * Z * string := (k, al_code a + (if al_set a then 128 else 0), al_text a).
 
+(* the loop of _get_alarms_enabled / _get_alarms_set: append the id of every alarm whose flag is set *)
+Fixpoint m_alarm_ids (flag : alarm -> bool) (tab : list (id * alarm)) : list id :=
+  match tab with [] => [] | (k, a) :: r => if flag a then k :: m_alarm_ids flag r else m_alarm_ids flag r end.
+
 Definition ed_step (t : dtab) (o : dop) : dtab * dout :=
   match o with
   | DReqSV ids => (t, m_req_sv t ids)
@@ -84,6 +88,8 @@ Definition ed_step (t : dtab) (o : dop) : dtab * dout :=
   | DUpdateSV k v =>
     ({| ecs := ecs t; alarms := alarms t;
         svs := map (fun p => if id_eqb (fst p) k then (fst p, {| sv_name := sv_name (snd p); sv_unit := sv_unit (snd p); sv_value := v |}) else p) (svs t) |}, DNone)
+  | DReqAlarmSVs =>       (* _get_sv_value for ids 1004 / 1005: _get_alarms_enabled / _get_alarms_set walk the alarm table in its order *)
+    (t, DAlarmLists (m_alarm_ids (fun a => al_enabled a) (alarms t)) (m_alarm_ids (fun a => al_set a) (alarms t)))
   end.
 
 Fixpoint ed_run (t : dtab) (ops : list dop) : dtab * list dout :=
